@@ -260,6 +260,18 @@ def run_pp(case):
     require(len(reported) == trailing, 'pp reported the wrong number of trailing bits', got=len(reported), expected=trailing, fmt=fmt)
     if not case['no_color'] and n:
         require(ESC in text, 'colour is on but the output has no escape sequences')
+    # the colour setting must be honoured at every call, whatever it was before (history inside the case)
+    for flip in (not case['no_color'], case['no_color'], not case['no_color']):
+        bs.options.no_color = flip
+        o2 = io.StringIO()
+        x.pp(fmt, case['width'], case['sep'], case['show_offset'], o2)
+        t2 = o2.getvalue()
+        if flip:
+            require(ESC not in t2, 'pp output contains escape sequences although options.no_color is set (after the option was toggled)', fmt=fmt)
+        elif n:
+            require(ESC in t2, 'colour was switched on again but the output has no escape sequences')
+        require(strip_colour(t2) == plain, 'pp output differs (beyond colour) after toggling options.no_color')
+    bs.options.no_color = case['no_color']
     require(x.bin == bits, 'pp changed the object')
     return {'nt': len(body_lines) >= 2 or bool(reported), 'labels': [fmt.replace(' ', '')[:12], 'lines=%d' % min(len(body_lines), 5), 'lsb0' if case['lsb0'] else 'msb0', 'color' if not case['no_color'] else 'nocolor']}
 
